@@ -33,8 +33,8 @@ TRUSTED = [
     "babel_extract's re-lexing, option parsing and comment collection: correspondence only",
 ]
 ASSUMPTIONS = [
-    "variable names are identifiers without parentheses that are not parameter names of the new-style wrappers "
-    "(__context, __string, __singular, __plural, __num, __string_ctx) and not _trans",
+    "variable names are identifiers without parentheses, not _trans (parameter names of the new-style wrappers such as "
+    "__string are probed too since b0352aa made them positional-only)",
     "values are str, Markup, int or undefined; ngettext is the identity choice n == 1",
     "extraction and rendering use the same newstyle_gettext / ext.i18n.trimmed settings (the property's 'same options')",
 ]
@@ -53,14 +53,14 @@ CLAIM = dict(
          "break to one space (trimmed_spec_*); context routes to pgettext/npgettext (context_routing); only variable values are "
          "escaped (autoescape_vars); %(num)s always resolves under new style (num_injected); every call a gettext "
          "callable receives is covered by extract_from_ast's output for the same node list and options (extraction_complete). "
-         "The one excluded shape — old style, variables declared in the tag but none referenced, '%' in the text — is proved to "
-         "break the round trip in the model (oldstyle_unreferenced_percent_witness) and reported as a known finding. Tie: the "
+         "The formerly failing shape — old style, variables declared in the tag but none referenced, '%' in the text (fixed in "
+         "/repo by a1dc827) — is covered by the full-strength statement (declared_unreferenced_percent_renders_source) and "
+         "probed on every run. Tie: the "
          "AST built by Environment.parse, _trim_whitespace, Python's % operator, rendered output and recorded calls in 16 "
          "configurations, extract_from_ast and babel_extract are compared with the model on enumerated shapes and random blocks.",
     note="Trusted: Lean kernel; hand model (tied by correspondence only); Python %-formatting subset, markupsafe, "
          "Py_UNICODE_ISSPACE table; compiler/lexer reached end to end only; babel_extract option handling by correspondence. "
-         "Known finding: old-style trans block with declared but unreferenced variables and a literal '%' raises ValueError / "
-         "renders wrong text.",
+         "Two defects found by this check were fixed in /repo (a1dc827, b0352aa); their shapes stay in the generators.",
     design_ref="§5 C33",
 )
 
@@ -407,7 +407,7 @@ def render(env, src, data):
 
 def run(ctx, res):
     jinja2 = core.import_jinja()
-    stats = {"unit_parse": 0, "unit_parse_err": {}, "e2e": 0, "e2e_model_declined": 0, "known_shape_hits": 0, "funcs": {},
+    stats = {"unit_parse": 0, "unit_parse_err": {}, "e2e": 0, "e2e_model_declined": 0, "formerly_failing_shape_probes": 0, "funcs": {},
              "trim_unit": 0, "format_unit": 0, "format_declined": 0, "format_keyerror": 0, "extract_templates": 0,
              "extract_messages": 0, "ws_codepoints": 0, "plural_counts": {}, "trimmed_blocks": 0, "blocks_with_percent": 0,
              "vars_per_block": {}, "undefined_vars": 0}
@@ -421,7 +421,8 @@ def run(ctx, res):
     run_reserved(ctx, res, jinja2, stats)
 
     res.coverage.update({
-        "evaluations": stats["unit_parse"] + stats["e2e"] + stats["trim_unit"] + stats["format_unit"] + stats["extract_templates"] * 3,
+        "evaluations": stats["unit_parse"] + stats["e2e"] + stats["trim_unit"] + stats["format_unit"] + stats["extract_templates"] * 3
+                       + stats.get("reserved_name_probes", 0),
         "distinct_nontrivial": len(distinct),
         "rule": ("blocks: product of 12 headers x 6 bodies x 5 pluralize forms x context (720 shapes) plus random blocks over "
                  f"{len(DATA_ATOMS)} text atoms (%, %%, %(x)s look-alikes, braces, markup, Unicode, line breaks, Unicode "
@@ -441,8 +442,8 @@ def run_blocks(ctx, res, jinja2, stats, distinct, samples):
     rng = ctx.rng("blocks")
     blocks = list(shape_blocks())
     if ctx.quick:
-        blocks = [b for i, b in enumerate(blocks) if i % 3 == ctx.seed % 3]
-    for _ in range(ctx.pick(260, 5000)):
+        blocks = [b for i, b in enumerate(blocks) if i % 6 == ctx.seed % 6]
+    for _ in range(ctx.pick(130, 5000)):
         blocks.append(gen_block(rng))
     cases = [Case(jinja2, rng, b) for b in blocks]
 
@@ -544,14 +545,15 @@ def run_blocks(ctx, res, jinja2, stats, distinct, samples):
         # (1) the property's oracle (identity translation only)
         if not mark and out != oracle:
             if known_shape(c.block, ns):
-                stats["known_shape_hits"] += 1
                 res.violate(KNOWN_KEY,
                             f"old-style gettext, variables declared in the tag but none referenced, literal '%': {c.src!r} "
-                            f"gives {out!r}, source text is {oracle!r} (_make_node un-doubles '%%' because no variable is "
-                            "referenced and still applies '% dict' because variables is non-empty, ext.py:531-534,565)", replay)
+                            f"gives {out!r}, source text is {oracle!r} (_make_node must un-double '%%' exactly when no "
+                            "'% dict' is applied; regression of the defect fixed by a1dc827)", replay)
             else:
                 res.violate(f"C33:e2e:oracle:{cfg}", f"{c.src!r} with {replay['data']} ({cfg}, trimmed policy {pt}) renders "
                             f"{out!r}; source text with variables substituted is {oracle!r}", replay)
+        if not mark and known_shape(c.block, ns):
+            stats["formerly_failing_shape_probes"] += 1
         # (2) transcription vs implementation
         if model_text is not None:
             if out != model_text:
@@ -586,10 +588,12 @@ def run_trim_unit(ctx, res, jinja2, stats, distinct):
           " ", " ", " ", " ", "　", "\n", "\n", " ", " "]
     nonws = ["a", "b", "%", "%%", "(", ")s", "​", "᠎", "\x1b", "\x08", "é", "﻿", "<", "0", "\x00", "\x7f", "\x84", "\x86"]
     texts = ["", " ", "\n", "a", " a ", "a\nb", "a \n b", "a  b", "\n a \n", "a\n\nb", "a \t b", " \n ", "a\rb", "a\r\nb", "a\x0bb"]
-    for _ in range(ctx.pick(1500, 20000)):
+    for _ in range(ctx.pick(700, 20000)):
         texts.append("".join(rng.choice(ws) if rng.random() < 0.55 else rng.choice(nonws) for _ in range(rng.randrange(0, 12))))
     # the whitespace table itself: one probe per code point (both roles: strippable, and joinable with a line break)
     cps = list(range(0, 0x3100)) + [0xfeff, 0x1d7d8, 0xe0020]
+    if ctx.quick:   # quick: the low planes where all of Python's whitespace lives densely, the rest every 4th code point
+        cps = [cp for cp in cps if cp < 0x100 or 0x1680 <= cp <= 0x1681 or 0x2000 <= cp < 0x2070 or 0x3000 <= cp < 0x3002 or cp % 4 == ctx.seed % 4]
     for cp in cps:
         if 0xd800 <= cp <= 0xdfff:
             continue
@@ -613,7 +617,7 @@ def run_format_unit(ctx, res, stats, distinct):
              "%(é)s", "\n", "%%%", "100%%", "%(a)s%(a)s", "%5s", "%(a)5s", "%(a)r", "{", "☃"]
     mapping_pool = [("a", "A"), ("b", ""), ("num", "3"), ("é", "E"), ("", "empty"), ("a(b)", "P"), ("a", "%(b)s"), ("b", "%")]
     cases = []
-    for _ in range(ctx.pick(1500, 20000)):
+    for _ in range(ctx.pick(700, 20000)):
         f = "".join(rng.choice(atoms) for _ in range(rng.randrange(0, 7)))
         m = {}
         for k, v in rng.sample(mapping_pool, rng.randrange(0, 5)):
@@ -663,7 +667,7 @@ def run_extract(ctx, res, jinja2, stats, distinct, samples):
     rng = ctx.rng("extract")
     keywords = ["_", "gettext", "ngettext", "pgettext", "npgettext"]
     templates = []
-    for _ in range(ctx.pick(120, 1500)):
+    for _ in range(ctx.pick(60, 1500)):
         ns = rng.random() < 0.5
         pt = rng.random() < 0.4
         nodes, parts, data = [], [], {"n": rng.choice([0, 1, 2]), "dynmsg": "dynamic", "other": (lambda s: s)}
@@ -765,23 +769,41 @@ def run_extract(ctx, res, jinja2, stats, distinct, samples):
         samples.append({"extract_src": templates[0][3], "newstyle": templates[0][0]})
 
 
+RESERVED_NAMES = ["__string", "__context", "__num", "__singular", "__plural", "__string_ctx"]
+
+
 def run_reserved(ctx, res, jinja2, stats):
-    """outside the model's name domain (stated assumption): parameter names of the new-style wrappers"""
+    """trans variables named like the parameters of the new-style wrappers (TypeError 'multiple values' before b0352aa made
+    those parameters positional-only): every name x the four wrappers, declared and referenced, through the same oracle"""
+    cases = []
+    for name in RESERVED_NAMES:
+        for ctxs in (None, "c"):
+            for plural in (None, (None, [("d", "many "), ("v", name)])):
+                block = {"ctx": ctxs, "header": [(name, "int")], "singular": [("d", "one % "), ("v", name)], "plural": plural}
+                cases.append((name, block, unparse(block, ["1"])))
+    reqs = [[Atom("i18n-render"), True, False, ae, Atom("id"), sx_block(b), [[n, [Atom("i"), 1]]]]
+            for n, b, _ in cases for ae in (False, True)]
+    replies = core.driver_batch(reqs)
+    k = 0
     hits = []
-    for name, src in (("__string", "{% trans __string=1 %}x{% endtrans %}"),
-                      ("__context", "{% trans __context=1 %}x{% endtrans %}"),
-                      ("__num", "{% trans __num=1 %}x{% pluralize %}y{% endtrans %}")):
-        env = make_env(jinja2, True, False, False, False, [])
-        out = render(env, src, {})
-        if out not in ("x", "y"):
-            hits.append((name, src, out))
-    stats["reserved_name_probe"] = len(hits)
+    for name, block, src in cases:
+        for ae in (False, True):
+            rep = replies[k]
+            k += 1
+            if rep[0] != "ok":
+                raise core.HarnessError(f"driver: reserved-name reply {rep}")
+            oracle = rep[1][1]
+            out = render(make_env(jinja2, True, ae, False, False, []), src, {})
+            if out != oracle:
+                hits.append((name, src, ae, out, oracle))
+    stats["reserved_name_probes"] = k
     if hits:
-        name, src, out = hits[0]
-        res.violate(RESERVED_KEY, f"new-style gettext: a trans variable named like a parameter of the wrapper ({', '.join(h[0] for h in hits)}) "
-                    f"fails: {src!r} gives {out!r}, expected 'x' (ext.py:179,193-199: parameters are not positional-only)",
-                    {"kind": "render", "src": src, "data": {}, "newstyle": True, "autoescape": False, "policy_trimmed": False,
-                     "mark": False, "observed": out, "oracle": "x"})
+        name, src, ae, out, oracle = hits[0]
+        res.violate(RESERVED_KEY, f"new-style gettext: a trans variable named like a parameter of the wrapper "
+                    f"({', '.join(sorted({h[0] for h in hits}))}) fails: {src!r} gives {out!r}, expected {oracle!r} "
+                    "(the wrappers' own parameters must be positional-only; regression of the defect fixed by b0352aa)",
+                    {"kind": "render", "src": src, "data": {}, "newstyle": True, "autoescape": ae, "policy_trimmed": False,
+                     "mark": False, "observed": out, "oracle": oracle})
 
 
 def replay(ctx, case):
